@@ -21,6 +21,6 @@ Extraction "kvmodel.ml"
   check_stat_count check_find_by_offset check_find_by_count check_find_by_size check_find_by_age
   check_find_updates check_find_deletes check_latest_preserved check_scan mono_times rec_size
   crc32c enc_rec enc_log enc_log_header read_rec log_version scan_log scan_fuel_of enc_index index_read
-  check_bytes recover_bytes recover_prog enc_item check_recover check_check valid_prefix derive scan_items
+  check_bytes recover_bytes recover_prog migrate_prog rrun enc_item check_recover check_check valid_prefix derive scan_items
   do_backup backup_dir cstep cinit cabs delete_prog publish_prog rolled publish_kinds sync_kinds kinds_ops head_base
   ninit nrun xrun xh_step ftab0 fstep open_dir b_open b_log_consume b_log_get b_log_get_by_key b_log_consume_by_key b_log_get_by_time.
